@@ -61,7 +61,7 @@ pub fn run(s: &Session) {
     let mode = Mode { check_wire: true, check_sets: false };
     for (name, version) in [("exhaustive-v13", 13u64), ("exhaustive-v15-leios", 15)] {
         let cfg = Cfg { peers: 1, max_peers: 2, max_warm: 1, max_hot: 1, max_error_count: 1, version };
-        let (st, tr) = bfs(s, name, &cfg, &prefix(), &alphabet(), s.pick(6, 8), &mode, &interesting);
+        let (st, tr) = bfs(s, name, &cfg, &prefix(), &alphabet(), s.pick(7, 9), &mode, &interesting);
         s.note(&format!("{name}_states"), serde_json::json!(st));
         s.note(&format!("{name}_transitions"), serde_json::json!(tr));
     }
@@ -69,7 +69,7 @@ pub fn run(s: &Session) {
         let cfg = Cfg { peers: 3, max_peers: 3, max_warm: 3, max_hot: 2, max_error_count: 2, version };
         s.forall(
             name,
-            s.pick(4_000, 150_000),
+            s.pick(10_000, 300_000),
             move || {
                 let c = cfg.clone();
                 prop::collection::vec(op_strategy(3), 1..300).prop_map(move |ops| SeqCase { cfg: c.clone(), ops, idx: 0 })
